@@ -428,10 +428,14 @@ impl resolvo::DependencyProvider for &DependencyProvider {
         unsafe { (self.get_candidates)(self.data, name.into(), NonNull::from(&mut candidates)) };
 
         unsafe {
+            // `favored` and `locked` may point at entries of `candidates.candidates`: read
+            // them before that vector is consumed (and its buffer possibly freed).
+            let favored = candidates.favored.as_ref().copied().map(Into::into);
+            let locked = candidates.locked.as_ref().copied().map(Into::into);
             Some(resolvo::Candidates {
                 candidates: candidates.candidates.into_iter().map(Into::into).collect(),
-                favored: candidates.favored.as_ref().copied().map(Into::into),
-                locked: candidates.locked.as_ref().copied().map(Into::into),
+                favored,
+                locked,
                 hint_dependencies_available: HintDependenciesAvailable::Some(
                     candidates
                         .hint_dependencies_available
